@@ -369,7 +369,7 @@ def _bytes_of(eng, st, args, kwargs):
     from .values import IntV
     (t,) = args
     tt = V(T.KRef('Tensor'), t.term)
-    n = T.numel(eng, T.tf(eng, st, tt, 'shape').term) * T.esize(T.tf(eng, st, tt, 'dtype').term)
+    n = eng.int_mul(T.numel(eng, T.tf(eng, st, tt, 'shape').term), T.esize(T.tf(eng, st, tt, 'dtype').term))
     return IntV(z3.If(t.term == 0, 0, n))
 
 
@@ -476,3 +476,13 @@ def _clip_sum(eng, st, args, kwargs):
     p, i = args
     f = eng.uf_cache.setdefault('clip_sum', z3.Function('clip_sum', z3.IntSort(), z3.IntSort(), z3.RealSort()))
     return RealV(f(p.term, eng.as_int(i, st)))
+
+
+@spec('msum')
+def _msum(eng, st, args, kwargs):
+    """msum(p, key, j): ghost running sum of the `key` entry of layer.memory_usage() over the first j layers of p
+    (defined by the `definitions` of the contract that uses it)."""
+    from .values import IntV, KStr, coerce
+    p, k, j = args
+    f = eng.uf_cache.setdefault('msum', z3.Function('msum', z3.IntSort(), KStr.sort(), z3.IntSort(), z3.IntSort()))
+    return IntV(f(p.term, coerce(k, KStr).term, eng.as_int(j, st)))
